@@ -202,7 +202,8 @@ theorem erase_reading {d d3 : Disk} (hs : SInv d) (v : Vol) (fsL : List LRec) (c
     hlocked
   -- the invariant of the new image
   have hinv4 : Inv (wbRaw (delImage raw1 B (k + 1)) (hdrBm d.raw) (nbmOf (hdrTotal d.raw)) (clearBit (clearBit buf1 B) 2)) := by
-    refine ⟨hshape4, by rw [htot4, hsz4]; exact hsz, _, _, ch', hrd4, by rw [htot4]; exact htree4, hw4, hn4, hgeo4, hprev4, hroot.len, ?_⟩
+    refine ⟨hshape4, by rw [htot4, hsz4]; exact hsz, _, _, ch', hrd4, by rw [htot4]; exact htree4, hw4, hn4, hgeo4, hprev4, hroot.len, ?_,
+      names_after hroot hsplit hslots4 (fun ha => by rw [hinact] at ha; cases ha)⟩
     intro y hy
     rw [hslots4] at hy
     rcases List.mem_append.mp hy with a | a
